@@ -130,6 +130,24 @@ func (m *apiRunner) step(c *apiCall) apiStep {
 		})
 	}
 
+	// C15: the position map of every document set agrees with its list
+	if post != pre {
+		safely("setindex", func() {
+			for _, h := range sortedHandles(post) {
+				set := post.Namespaces[h].Documents
+				bad := len(set.Index) != len(set.List)
+				for i, d := range set.List {
+					if j, ok := set.Index[d]; !ok || j != i {
+						bad = true
+					}
+				}
+				if bad {
+					viol("C15", "Set.Index does not map every listed document to its position", "set-index-stale", h.String())
+				}
+			}
+		})
+	}
+
 	// C07
 	if post != pre {
 		safely("unique", func() {
